@@ -162,6 +162,30 @@ func (x *Engine) verifyFunc(fs *FuncSpec, cs *Clause) (rep *FuncReport) {
 		}
 		// reachability of the normal return (vacuity)
 		x.obls = append(x.obls, &Obl{Name: x.curFn + "#cover[return]", Func: x.curFn, Kind: "cover", Label: "return", Props: fs.Props, NScript: len(x.script), Goal: "false", Live: ret.live, Text: "a normal return is reachable", Expect: "sat"})
+		if len(fs.Uses) > 0 {
+			// lemma arguments may mention locals of the (last) return point
+			uenv := map[string]Val{}
+			var rb *ssa.BasicBlock
+			for _, b := range fn.Blocks {
+				if len(b.Instrs) > 0 {
+					if _, ok := b.Instrs[len(b.Instrs)-1].(*ssa.Return); ok && b != fn.Recover {
+						rb = b
+					}
+				}
+			}
+			if rb != nil {
+				le, _ := x.nameEnv(fr, rb, nil)
+				for k, v := range le {
+					uenv[k] = v
+				}
+			}
+			for k, v := range env {
+				uenv[k] = v
+			}
+			for _, u := range fs.Uses {
+				x.useLemma(ret, fr.entry, u, uenv, pkg)
+			}
+		}
 		for i, c := range fs.Ensures {
 			ev := &Eval{x: x, st: ret, old: fr.entry, env: env, pkg: pkg}
 			g := x.safeEvalBool(ev, c)
